@@ -1043,10 +1043,12 @@ def c11_rules(ctx, f):
     # ---- R4
     fm = [c for c in fn.calls("datamasking::mask") if not fn.in_loop(c.block)]
     pm = [l for l in fn.params() if fn.locals[l]["ty"] == "&mut " + OPT % MASK]
-    if len(fm) == 1 and len(pm) == 1:
+    pv = [l for l in fn.params() if fn.locals[l]["ty"] == OPT % MASK]
+    if len(fm) == 1 and len(pm) + len(pv) == 1:
         op = [a for a in fm[0].args if a.get("ty") == MASK][0]
         r = option_resolution(fn, op, fm[0].point)
-        ok = bool(r) and r["option"].kind == "param" and r["option"].info == -pm[0] and not r["option"].proj
+        want_info = -pm[0] if pm else pv[0]
+        ok = bool(r) and r["option"].kind == "param" and r["option"].info == want_info and not r["option"].proj
         ctx.check(r4, ok, fn.path + "/forced-mask", fm[0].where(), fn.path, "mask finally applied",
                   "the mask applied is not `caller's forced mask, else the selected one`",
                   found=[o.describe(fn) for o in fn.origins(op, fm[0].point)], sample="final mask = mask.%s(best)" % (r["form"] if r else "?"))
